@@ -58,8 +58,10 @@ def gen_seq(rng):
             ops.append(["recv", str(rng.choice([sm, 1, 5, 100000]))])
         elif r < 0.52:
             ops.append(["consume", str(sm)])
-        elif r < 0.58:
+        elif r < 0.55:
             ops.append(["shiftback", str(rng.choice([1, 2, sm]))])
+        elif r < 0.58:
+            ops.append(["bodydrop", str(rng.choice([1, 5, sm]))])
         elif r < 0.72:
             ops.append(["alloc", str(rng.choice([sm, 0, 24, (1 << 64) - 1, (1 << 64) - 20, 1 << 63]))])
         elif r < 0.78:
@@ -81,7 +83,7 @@ def gen_seq(rng):
 
 def gen_exh(length):
     alpha = [["grow", "0"], ["grow", "1"], ["recv", "1"], ["recv", "31"], ["recv", "64"], ["consume", "1"], ["consume", "30"],
-             ["shiftback", "1"], ["alloc", "8"], ["alloc", "40"], ["alloc", "18446744073709551615"], ["shrinkread"], ["maxwrite"],
+             ["shiftback", "1"], ["bodydrop", "3"], ["alloc", "8"], ["alloc", "40"], ["alloc", "18446744073709551615"], ["shrinkread"], ["maxwrite"],
              ["wappend", "5"], ["wsend", "5"], ["reset"], ["errrelease"], ["errreset"]]
     for ps, inc in ((128, 16), (256, 1500)):
         for combo in itertools.product(alpha, repeat=length):
